@@ -81,6 +81,24 @@ Definition heap_loose (l : cloose) : heap :=
   | LText t => [(t_id t, OText {| x_pos := DETACHED; x_bound_to := 0%N; x_appended := None; x_content := t_s t |})]
   end.
 
+(* a document: prologue nodes, root element, epilogue nodes are lxml siblings of each other (getnext / getprevious),
+   have no tails and no parent.  `docid` is a fresh identity used only to lay the siblings out. *)
+Definition doc_cel (docid : nid) (d : cdoc) : cel :=
+  CEl docid (KTag [] [] []) None no_chain (map (fun e => (e, no_chain)) (d_pro d ++ d_root d :: d_epi d)).
+Definition unparent (docid : nid) (o : cobj) : cobj :=
+  match o with
+  | OEl e => OEl {| e_tag := e_tag e; e_tail_exists := e_tail_exists e; e_tail_node := e_tail_node e;
+                    e_getnext := e_getnext e; e_getprevious := e_getprevious e;
+                    e_getparent := match e_getparent e with
+                                   | Some p => if N.eqb p docid then None else Some p
+                                   | None => None
+                                   end;
+                    e_data_exists := e_data_exists e; e_data_node := e_data_node e; e_first_el := e_first_el e |}
+  | OText _ => o
+  end.
+Definition heap_doc (docid : nid) (d : cdoc) : heap :=
+  map (fun kv => (fst kv, unparent docid (snd kv))) (tl (heap_top (doc_cel docid d))).
+
 Definition lookup (h : heap) (n : nid) : option cobj :=
   option_map snd (find (fun kv => N.eqb (fst kv) n) h).
 
